@@ -24,23 +24,24 @@ def corpus(tier, seed):
     return progs
 
 
-def build_items(tier, seed, facts=False, cases=('lower', 'lower', 'upper', 'mixed')):
+def build_items(tier, seed, facts=False, cases=('lower', 'lower', 'upper', 'mixed'), strict=False):
     rnd = random.Random(seed + 5)
     progs = corpus(tier, seed)
     out, _ = oalcheck.unparse_stage([b for _, b in progs])
     items = []
     for k, ((home, _), o) in enumerate(zip(progs, out)):
         items.append({'home': home, 'body': o['body'], 'toks': o['toks'], 'seed': rnd.randint(0, 10 ** 6),
-                      'case': cases[k % len(cases)], 'layout': ['mixed', 'plain'][k % 2], 'facts': facts})
+                      'case': cases[k % len(cases)], 'layout': ['mixed', 'plain'][k % 2], 'facts': facts, 'strict': strict})
     return items
 
 
 def run(pid, tier, replay_path, facts, rule, model, assumptions, module='OalTrace', mods=('OalSyntax', 'OalTrace', 'TraceBase'),
-        consts=''):
+        consts='', cases=None, strict=False):
     t = common.Timer()
     rep = evidence.Report(pid)
     seed = common.seed()
-    items = [common.read_json(replay_path)['item']] if replay_path else build_items(tier, seed, facts)
+    items = [common.read_json(replay_path)['item']] if replay_path else (
+        build_items(tier, seed, facts, cases, strict) if cases else build_items(tier, seed, facts))
     runs = [{'items': items[i:i + 6]} for i in range(0, len(items), 6)]
     traces = replay.replay('prebuildgen', {'schema': oalgen.OAL_SCHEMA}, runs, timeout=3000)
     verdicts, st = trace.validate(module, consts, traces, modules=list(mods))
